@@ -6,10 +6,12 @@ LEVEL = "model_checking"
 RULE = ("M: PowMine (one action per stretch of code between two hook points of worker.go) model-checked for NW<=3 (thorough 4) workers in modes "
         "always/never/either: a finder's send never blocks, nonce only if found, ErrCancelled only if cancelled, all workers finished at return, "
         "no stuck state; liveness under weak fairness: cancelled ~> returned, found ~> returned, returned ~> all goroutines gone. Vacuity control: "
-        "Cap=1 violates SendNeverBlocks. A: module PowMineInd states an inductive invariant of PowMine; Apalache discharges Init => IndInv, "
+        "Cap=1 violates SendNeverBlocks. PowMineMulti: 2 (thorough 3) calls in flight that share nothing keep every per-call clause, a shared stop flag / a blocking "
+        "process-wide semaphore violate them (controls). A: module PowMineInd states an inductive invariant of PowMine; Apalache discharges Init => IndInv, "
         "IndInv /\\ Next => IndInv' and IndInv => safety clauses symbolically for NW=3 (thorough 1..6), all modes at once, with witness states as vacuity control. G: TLC simulation behaviours (modes always/never, 1..3 workers, cancel at arbitrary instants) are replayed "
         "as schedules on the real Mine of both PoW versions through blocking hooks. T: free-running executions (1..64 workers; cancel before the "
-        "call, after a random delay, simultaneously with a find; targets from 'every lane qualifies' to unattainable). Every recorded execution is "
+        "call, after a random delay, simultaneously with a find; targets from 'every lane qualifies' to unattainable; New(), New(0), New(-1); two calls on one Worker; calls on "
+        "separate Workers with more workers than processors, one cancelled / one finding while the other goes on; other configured digest functions between calls). Every recorded execution is "
         "validated against PowMine by TLC (interleavings inferred, one action of look-ahead per process), incl. returned value, goroutine count "
         "and the returned nonce's score. The free-running binary is built with the race detector. Distinct = distinct event sequences.")
 ASSUME = ["TLC/SANY/CommunityModules", "Go toolchain, race detector (dynamic: only executed interleavings)", "Go memory model: sequentially consistent atomics, "
@@ -163,6 +165,18 @@ def run(ctx):
     if "Invariant SendNeverBlocks is violated" not in r["out"]:
         raise vlib.Infra("vacuity control failed: Cap=1 does not violate SendNeverBlocks")
     ctx.notes.append("vacuity control: Cap=1 violates SendNeverBlocks in the model")
+    # several calls in flight (PowMineMulti): calls that share nothing keep every per-call clause; the two named deviations
+    # (stop flag in the Worker value, process-wide semaphore with a blocking acquire) are exposed by exactly the clauses the
+    # outcome-only traces are judged by
+    for m2 in (("either",) if q else ("either", "always", "never")):
+        vlib.model_check(ctx, "PowMineMulti", constants={"Mode2": '"%s"' % m2}, name="M_multi_" + m2, timeout=1500)
+    if not q:
+        vlib.model_check(ctx, "PowMineMulti", constants={"NC": 3, "NW": 1, "Slots": 1, "Mode3": '"always"', "CancelOf": "{1, 2, 3}"}, name="M_multi_3calls", timeout=1500)
+    for share, expect in (("done", "Invariant CancelledOnlyIfOwnCancelled is violated"), ("slots", "CancelLeadsToReturn")):
+        r = vlib.tlc(ctx, "PowMineMulti", constants={"Share": '"%s"' % share}, workers=4, name="M_multi_vacuity_" + share, check_ok=False, count=False)
+        if expect not in r["out"] or "violated" not in r["out"]:
+            raise vlib.Infra("vacuity control failed: Share=%s does not violate %s in PowMineMulti" % (share, expect))
+    ctx.notes.append("vacuity control: a stop flag shared between calls violates CancelledOnlyIfOwnCancelled, a blocking process-wide semaphore violates CancelLeadsToReturn (PowMineMulti)")
     # A: the safety clauses by induction (Apalache), every mode at once, per worker count; control: Cap < NW breaks the base case
     for nw in ((3,) if q else (1, 2, 3, 4, 5, 6)):
         vlib.apalache_inductive(ctx, "PowMineInd", "CInit%d" % nw, witnesses=(("W2",) if q else ("W1", "W2", "W3", "W4")) if nw == 3 else ())
